@@ -38,7 +38,8 @@ _REPO = os.environ.get('AEGEAN_REPO', '/repo')
 def _with_bool(orig):
     """`True` / `False` literals (the `vary=True` of the amplitude) become Lean Bool literals."""
     def expr_int(self, node):
-        if isinstance(node, ast.Constant) and isinstance(node.value, bool):
+        # only for C05's own `stage`-indexed tables, so that no other property's translation changes
+        if isinstance(node, ast.Constant) and isinstance(node.value, bool) and set(self.params) == {'stage'}:
             return ('true' if node.value else 'false'), 'B', set()
         return orig(self, node)
     expr_int._c05_bool = True
